@@ -52,6 +52,7 @@ type run struct {
 	faulted      bool
 	delay        time.Duration
 	netDelay     time.Duration
+	clientDelay  map[string]time.Duration
 	blocked      map[string]bool
 	start        time.Time
 	leaderTables map[string]uint64 // name -> current leader shard id, as last observed
@@ -167,7 +168,7 @@ func (r *run) kvCall(n *Node, st *Step, timeout time.Duration) *histOp {
 	do := func() {
 		ctx, cancel := ctxT(timeout)
 		defer cancel()
-		kv := r.w.kv(n)
+		kv := r.w.kvOf(st.Client, n)
 		switch st.Op {
 		case "put":
 			req := &regattapb.PutRequest{Table: []byte(tname), Key: r.kc.Key(st.K), Value: st.V.Bytes(), PrevKv: st.Prev}
@@ -369,11 +370,9 @@ func (r *run) execStep(st *Step) {
 		if n == nil || !n.up {
 			return
 		}
-		if st.DelayMs > 0 {
-			r.delay = time.Duration(st.DelayMs) * time.Millisecond
-		}
+		// the request (and answer) bytes of this client travel with the given delay until told otherwise
+		r.clientDelay[clientAddr(st.Client)] = time.Duration(st.DelayMs) * time.Millisecond
 		r.kvCall(n, st, 3*time.Second)
-		r.delay = 0
 		r.out.Probe("kv-" + st.Op)
 	case "create":
 		n := r.node(false, st.N)
